@@ -2936,6 +2936,21 @@ class QuicConnection:
             if value is not None:
                 setattr(self, "_remote_" + param, value)
 
+        # Streams we opened for 0-RTT data were given the limits remembered from
+        # the session ticket: they follow the limits granted for this connection.
+        if not from_session_ticket:
+            for stream in self._streams.values():
+                if stream.is_blocked or (
+                    stream_is_client_initiated(stream.stream_id) != self._is_client
+                ):
+                    continue
+                if stream_is_unidirectional(stream.stream_id):
+                    value = self._remote_max_stream_data_uni
+                else:
+                    value = self._remote_max_stream_data_bidi_remote
+                if value > stream.max_stream_data_remote:
+                    stream.max_stream_data_remote = value
+
     def _serialize_transport_parameters(self) -> bytes:
         quic_transport_parameters = QuicTransportParameters(
             ack_delay_exponent=self._local_ack_delay_exponent,
